@@ -329,8 +329,26 @@ func (p *parser) parseObjectProperty() ast.Property {
 func (p *parser) parseObjectLiteral() ast.Expression {
 	var value []ast.Property
 	idx0 := p.expect(token.LEFT_BRACE)
+	// 11.1.5: the kinds of property assignment seen for each name (1 data, 2 get, 4 set).
+	kinds := map[string]int{}
 	for p.token != token.RIGHT_BRACE && p.token != token.EOF {
-		value = append(value, p.parseObjectProperty())
+		idx := p.idx
+		property := p.parseObjectProperty()
+		kind := 1
+		switch property.Kind {
+		case "get":
+			kind = 2
+		case "set":
+			kind = 4
+		}
+		switch seen := kinds[property.Key]; {
+		case (kind == 1) != (seen&1 != 0) && seen != 0:
+			p.error(idx, "Object literal may not have data and accessor property with the same name")
+		case kind != 1 && seen&kind != 0:
+			p.error(idx, "Object literal may not have multiple get/set accessors with the same name")
+		}
+		kinds[property.Key] |= kind
+		value = append(value, property)
 		if p.token == token.COMMA {
 			if p.mode&StoreComments != 0 {
 				p.comments.Unset()
